@@ -150,8 +150,15 @@ func (p *Prog) BuildUniverse() *Universe {
 		// String() methods of ast nodes and tokens format for diagnostics only
 		instrsOf(fn, func(in ssa.Instruction) {
 			mi, ok := in.(*ssa.MakeInterface)
-			if !ok || !isEmptyInterface(mi.Type()) {
+			if !ok {
 				return
+			}
+			if !isEmptyInterface(mi.Type()) {
+				// a value boxed as Callable is a Borno function value as well (it reaches value positions
+				// through a change of interface)
+				if ci := p.callableIface(); ci == nil || !types.Identical(mi.Type().Underlying(), ci) {
+					return
+				}
 			}
 			if p.onlyFeedsExternal(mi) {
 				return
